@@ -298,7 +298,15 @@ def execute_families(p, seed, workdir, only_build=None):
             by_id[sc["id"]] = sc
         viol += v
         for k, x in st.items():
-            stat[k] = max(stat.get(k, 0), x) if k == "rowcap" else stat.get(k, 0) + x
+            if k == "rowcap":
+                stat[k] = max(stat.get(k, 0), x)
+            elif k == "_drift":
+                stat[k] = stat.get(k, []) + x
+            else:
+                stat[k] = stat.get(k, 0) + x
+        if st.get("drift", 0):
+            log("[%s] DRIFT (not an alarm): %d of %d compared calls of family %s differ from the driver layer of the specification, e.g. %s"
+                % (p.prop, st["drift"], st.get("driftcmp", 0), name, st.get("_drift", [])[:3]))
         states += ds
         trans += gs
         fam_info.append({"family": name, "batch": batch, "profile": profile, "scenarios": len(uniq),
@@ -444,6 +452,9 @@ def check(prop, tier, seed):
                 "known_findings_seen": sorted(known_hits.keys()),
                 "verdict_records_for_other_properties": others,
                 "measured_row_capacity": stat.get("rowcap", 0),
+                "drift_calls_compared_with_driver_layer": stat.get("driftcmp", 0),
+                "drift_events": stat.get("drift", 0),
+                "drift_examples": stat.get("_drift", [])[:5],
             },
             "assumptions": p.assumptions + [
                 "reference MIPI-DCS decoder of spec/Controller.tla (DESIGN.md section 4)",
